@@ -528,6 +528,7 @@ def validateRest (playback dep : Bool) (p : PathV) (prim : Option Str) : Except 
   chk (p.sod && p.source == sPublisher) "'sourceOnDemand' is useless when source is 'publisher'" <|
   chk (!p.sod && p.source != sPublisher && p.source != sRedirect && hasRegexp p)
     "a path with a regular expression (or path 'all_others') and a static source must have 'sourceOnDemand' set to true" <|
+  chk (p.udpRange != 2) "'rtspUDPSourcePortRange' must contain exactly two ports" <|   -- (/repo 9ca8a07, F-C10d)
   chk (!p.srtReadPass.isEmpty && passLenBad p.srtReadPass) "invalid 'readRTPassphrase'" <|
   chk (p.forward.any fwdBad) "invalid 'forward'" <|
   chk (p.fallback.isSome && !p.fallbackOk) "invalid fallback" <|
@@ -659,21 +660,12 @@ def pcRest (pb : Bool) : List (String × (PathV → Bool)) := [
   ("recordDeleteAfter is zero or not below recordSegmentDuration", fun p => p.delAfter == 0 || p.delAfter ≥ p.segDur),
   ("runOnInit is not used with regex/all paths", fun p => imp (!p.runOnInit.isEmpty) (!hasRegexp p)),
   ("runOnDemand/runOnUnDemand only with publisher",
-    fun p => imp (!p.runOnDemand.isEmpty || !p.runOnUnDemand.isEmpty) (p.source == sPublisher))
+    fun p => imp (!p.runOnDemand.isEmpty || !p.runOnUnDemand.isEmpty) (p.source == sPublisher)),
+  ("rtspUDPSourcePortRange has exactly two entries (the RTSP source indexes both)", fun p => p.udpRange == 2)
 ]
 
-/-- the per-path constraints that `Path.validate` enforces -/
+/-- all per-path constraints -/
 def pathConstraints (pb : Bool) : List (String × (PathV → Bool)) := pcName ++ pcSource ++ pcTop ++ pcRest pb
-
-/-- documented ("Range of ports used as source port in outgoing UDP packets", default `[32768, 60999]`) and relied
-upon (`internal/staticsources/rtsp/source.go` indexes `[0]` and `[1]`), but NOT enforced by `Path.validate`:
-open finding, class `udp-port-range-arity` -/
-def pcRange : List (String × (PathV → Bool)) := [
-  ("rtspUDPSourcePortRange has exactly two entries", fun p => p.udpRange == 2)
-]
-
-/-- all documented per-path constraints -/
-def pathConstraintsFull (pb : Bool) : List (String × (PathV → Bool)) := pathConstraints pb ++ pcRange
 
 def isRpiPrimary (p : PathV) : Bool := p.source == sRpiCamera && !p.secondary
 def isRpiSecondary (p : PathV) : Bool := p.source == sRpiCamera && p.secondary
@@ -730,25 +722,12 @@ def crossConstraints : List (String × (ConfV → Bool)) := [
 
 def globalConstraints : List (String × (ConfV → Bool)) := globalOnlyConstraints ++ crossConstraints
 
-/-- names of the constraints an (accepted) configuration violates — those that `Validate` enforces -/
+/-- names of the constraints an (accepted) configuration violates -/
 def violations (c : ConfV) : List String :=
   (globalConstraints.filter (fun k => !k.2 c)).map (·.1) ++
   c.paths.flatMap fun p => ((pathConstraints c.playback).filter (fun k => !k.2 p)).map (·.1)
 
-/-- the enforced part of the spec -/
+/-- **the spec** -/
 def constraints (c : ConfV) : Bool := violations c == []
-
-/-- decidable class of the open finding: some path's port range is not a pair -/
-def rangeArityClass (c : ConfV) : Bool := c.paths.any fun p => p.udpRange != 2
-
-/-- **the spec**: every documented constraint, incl. the arity of `rtspUDPSourcePortRange` -/
-def constraintsFull (c : ConfV) : Bool := constraints c && !rangeArityClass c
-
-/-- `Conf.Validate` with the proposed length check in `Path.validate` (verdict level: the check only adds an
-error return) -/
-def validateFixed (c : ConfV) : Except String ConfV :=
-  match validate c with
-  | .error e => .error e
-  | .ok c' => if rangeArityClass c' then .error "'rtspUDPSourcePortRange' must contain exactly two ports" else .ok c'
 
 end MtxVerif.C10
